@@ -96,3 +96,53 @@ package stick
 //@   ensures flat: isSafe(val) ==> sv_inner(result) == sv_inner(val)
 //@   loop 1 invariant safeFor != nil
 //@   loop 2 invariant safeFor != nil
+
+// ---------------------------------------------------------------------------------------
+// Layer X — scope stack (exec.go), property C07
+//
+//@ pred SM(dummy int) = true
+//@ pred scopesOK(s *scopeStack) = len(s.scopes) >= 1 && (forall i :: 0 <= i && i < len(s.scopes) ==> s.scopes[i] != nil)
+//@ pred top(s *scopeStack) = s.scopes[len(s.scopes) - 1]
+
+// Get: innermost binding first.
+//@ func stick.(*scopeStack).Get
+//@   ensures miss: !r1 ==> (forall i :: 0 <= i && i < len(s.scopes) ==> !in(s.scopes[i], name))
+//@   ensures some: r1 ==> !(forall i trig :: 0 <= i && i < len(s.scopes) ==> !in(s.scopes[i], name))
+//@   ensures hit: r1 ==> (forall i trig :: 0 <= i && i < len(s.scopes) && in(s.scopes[i], name) && (forall j trig :: i < j && j < len(s.scopes) ==> !in(s.scopes[j], name)) ==> r0 == s.scopes[i][name])
+//@   loop 1 invariant 0 <= i && i <= len(s.scopes) && (forall j :: i <= j && j < len(s.scopes) ==> !in(s.scopes[j], name))
+//@   loop 1 decreases i
+//@   pure
+
+// Set: exactly one entry is written — in the outermost scope that already defines the name, else in the
+// innermost scope; every other entry of every map is unchanged (whole-view postcondition).
+//@ func stick.(*scopeStack).Set
+//@   requires scopesOK(s)
+//@   ensures defined: forall i trig :: 0 <= i && i < len(s.scopes) && old(in(s.scopes[i], name)) && (forall j trig :: 0 <= j && j < i ==> !old(in(s.scopes[j], name))) ==>
+//@+     in(s.scopes[i], name) && s.scopes[i][name] == val
+//@+     && (forall m, k :: (m != s.scopes[i] || k != keyof(name)) ==> mdom("map[string]Value", m, k) == old(mdom("map[string]Value", m, k)) && mval("map[string]Value", m, k) == old(mval("map[string]Value", m, k)))
+//@   ensures undefined: (forall i trig :: 0 <= i && i < len(s.scopes) ==> !old(in(s.scopes[i], name))) ==>
+//@+     in(top(s), name) && top(s)[name] == val
+//@+     && (forall m, k :: (m != top(s) || k != keyof(name)) ==> mdom("map[string]Value", m, k) == old(mdom("map[string]Value", m, k)) && mval("map[string]Value", m, k) == old(mval("map[string]Value", m, k)))
+//@   ensures stack: len(s.scopes) == old(len(s.scopes)) && (forall i :: 0 <= i && i < len(s.scopes) ==> s.scopes[i] == old(s.scopes[i]))
+//@   loop 1 invariant rangeindex >= -1 && (forall j :: 0 <= j && j <= rangeindex ==> !in(s.scopes[j], name))
+//@   loop 1 decreases len(s.scopes) - rangeindex
+
+// setLocal: only the innermost scope's entry for name.
+//@ func stick.(*scopeStack).setLocal
+//@   requires scopesOK(s)
+//@   ensures set: in(top(s), name) && top(s)[name] == val
+//@   ensures frame: forall m, k :: (m != top(s) || k != keyof(name)) ==> mdom("map[string]Value", m, k) == old(mdom("map[string]Value", m, k)) && mval("map[string]Value", m, k) == old(mval("map[string]Value", m, k))
+//@   ensures stack: len(s.scopes) == old(len(s.scopes)) && (forall i :: 0 <= i && i < len(s.scopes) ==> s.scopes[i] == old(s.scopes[i]))
+
+// push: a fresh empty map on top; everything below is the same map, in place.
+//@ func stick.(*scopeStack).push
+//@   ensures len: len(s.scopes) == old(len(s.scopes)) + 1
+//@   ensures fresh: fresh(top(s)) && top(s) != nil && (forall k :: !mdom("map[string]Value", top(s), k))
+//@   ensures below: forall i :: 0 <= i && i < old(len(s.scopes)) ==> s.scopes[i] == old(s.scopes[i])
+//@   ensures maps: forall m, k :: allocated(m) ==> mdom("map[string]Value", m, k) == old(mdom("map[string]Value", m, k)) && mval("map[string]Value", m, k) == old(mval("map[string]Value", m, k))
+
+// pop: the innermost scope is dropped; index 0 is the caller's context and must never be popped.
+//@ func stick.(*scopeStack).pop
+//@   requires depth: len(s.scopes) >= 2
+//@   ensures len: len(s.scopes) == old(len(s.scopes)) - 1
+//@   ensures below: forall i :: 0 <= i && i < len(s.scopes) ==> s.scopes[i] == old(s.scopes[i])
